@@ -501,6 +501,11 @@ class Interp:
             return a * (2 ** b) if is_sym(a) else a << b
         if isinstance(op, ast.Pow):
             if is_sym(b):
+                # symbolic integer exponent of a concrete base: fork over a small range (the obligation's bounds keep it inside)
+                if not is_sym(a) and b.sort() == z3.IntSort():
+                    for k in range(-12, 13):
+                        if br.decide(b == k):
+                            return (z3.RealVal(1) / z3.RealVal(a ** (-k))) if k < 0 else a ** k
                 raise Unsupported('symbolic exponent')
             if is_sym(a) and isinstance(b, int) and b >= 0:
                 r = z3.IntVal(1) if a.sort() == z3.IntSort() else z3.RealVal(1)
@@ -563,17 +568,24 @@ def explore(fn, args, assumptions, models, kwargs=None, max_loop=64):
 
 
 def decide(leaves, bad, timeout_ms=60000):
-    """bad(leaf) -> z3 Bool that is true when the property is violated on that leaf.  Returns ('unsat'|'sat'|'unknown', model)."""
-    s = z3.Solver()
-    s.set('timeout', timeout_ms)
-    terms = []
+    """bad(leaf) -> z3 Bool that is true when the property is violated on that leaf.  One query per leaf (path condition and
+    violated); all unsat = holds for every input within the bounds.  Returns ('unsat'|'sat'|'unknown', model, solver)."""
+    last = None
+    unknown = False
+    per_leaf = max(5000, timeout_ms // max(1, min(len(leaves), 8)))
     for l in leaves:
         b = bad(l)
         if isinstance(b, bool):
             b = z3.BoolVal(b)
-        terms.append(z3.And(l.pc, b))
-    s.add(z3.Or(*terms) if terms else z3.BoolVal(False))
-    r = check(s)
-    if r == z3.sat:
-        return 'sat', s.model(), s
-    return str(r), None, s
+        s = z3.Solver()
+        s.set('timeout', per_leaf)
+        s.add(l.pc, b)
+        last = s
+        r = check(s)
+        if r == z3.sat:
+            return 'sat', s.model(), s
+        if r != z3.unsat:
+            unknown = True
+    if last is None:
+        last = z3.Solver()
+    return ('unknown' if unknown else 'unsat'), None, last
